@@ -21,7 +21,8 @@ PROPS["C06"] = dict(
           dict(name="e3::forward_journalling", fn=_jobs_c06.run_forward_journalling),
           # the two fallible operations the property names: nothing is left changed when they fail (shared with C08 / C21)
           dict(name="e3::transfer_conservation", fn=__import__("jobs_e3").run_transfer_conservation),
-          dict(name="e3::create_collision_guard", fn=__import__("jobs_c21").run_create_guard)],
+          dict(name="e3::create_collision_guard", fn=__import__("jobs_c21").run_create_guard),
+          dict(name="e3::transfer_sequential_consistency", fn=__import__("jobs_c21").run_transfer_order)],
 )
 CLAIMS["C06"] = dict(
     text="The journal is decided link by link from MIR (provenance flow, z3+cvc5 over every path). Forward: touching an account, bumping a nonce, setting code, writing a storage slot, writing "
